@@ -6,7 +6,9 @@ import (
 	"fmt"
 	"sort"
 	"strings"
+	"sync"
 	"testing"
+	"time"
 
 	"github.com/junegunn/fzf/src/algo"
 	"github.com/junegunn/fzf/src/util"
@@ -478,6 +480,99 @@ func TestVerifC04_TiebreakKeys(t *testing.T) {
 					}
 				}
 			}
+		}
+	})
+}
+
+// The order across a history of searches on one input, through the matcher's own loop (which
+// keeps the lists it published per query): a few queries are searched again and again while
+// sorting is switched off and on (toggle-sort). Every published list is in the order that the
+// query and the sort setting of its request dictate - rank order when sorting is on, input order
+// when it is off - however the query was searched before.
+func TestVerifC04_OrderAcrossQueryHistory(t *testing.T) {
+	rapid.Check(t, func(t *rapid.T) {
+		algo.Init("default")
+		sortCriteria = []criterion{byScore, byLength}
+		tac := rapid.IntRange(0, 3).Draw(t, "tac") == 0
+		h := &loopHarness{t: t, tac: tac, stopCh: make(chan struct{}), done: make(chan struct{})}
+		idx := int32(0)
+		cache := NewChunkCache()
+		h.cl = NewChunkList(cache, func(item *Item, data []byte) bool {
+			item.text = util.ToChars(data)
+			item.text.Index = idx
+			idx++
+			return true
+		})
+		patternCache := map[string]*Pattern{}
+		var pcMu sync.Mutex
+		build := func(c *ChunkCache, pc map[string]*Pattern, cacheable bool, q string) *Pattern {
+			return BuildPattern(c, pc, true, algo.FuzzyMatchV2, true, CaseSmart, true, true, false, cacheable, nil, Delimiter{}, revision{}, []rune(q), nil)
+		}
+		h.mk = func(q string) func(*ChunkCache, bool) *Pattern {
+			return func(c *ChunkCache, cacheable bool) *Pattern { return build(c, map[string]*Pattern{}, cacheable, q) }
+		}
+		h.eventBox = util.NewEventBox()
+		sortOn := rapid.Bool().Draw(t, "sortAtStart")
+		h.matcher = NewMatcher(cache, func(runes []rune) *Pattern {
+			pcMu.Lock()
+			defer pcMu.Unlock()
+			return build(cache, patternCache, true, string(runes))
+		}, sortOn, tac, h.eventBox, revision{})
+		h.matcher.partitions = rapid.SampledFrom([]int{1, 2, 8}).Draw(t, "partitions")
+		h.matcher.slab = make([]*util.Slab, h.matcher.partitions)
+		go h.matcher.Loop()
+		go h.consume()
+		defer func() {
+			h.matcher.Stop()
+			h.eventBox.Set(EvtQuit, nil)
+			<-h.done
+		}()
+		queries := rapid.SampledFrom([][]string{{"a", "ab", "b"}, {"a", "ab", ""}, {"b", "ba", "!a"}, {"a", "a b", "ab"}}).Draw(t, "queries")
+		n := rapid.SampledFrom([]int{40, 150, 320}).Draw(t, "n")
+		for _, l := range gen.Lines(t, queries[:2], n, n, 14) {
+			h.cl.Push([]byte(l))
+		}
+		var trace []string
+		q := ""
+		revisitedAfterToggle := false
+		searchedUnder := map[string]bool{} // query -> sort setting it was last searched under
+		steps := rapid.IntRange(3, 10).Draw(t, "steps")
+		for i := 0; i < steps; i++ {
+			if rapid.IntRange(0, 3).Draw(t, "toggleSort") == 0 {
+				sortOn = !sortOn
+				trace = append(trace, fmt.Sprintf("toggle-sort -> %v", sortOn))
+			} else {
+				q = rapid.SampledFrom(queries).Draw(t, "query")
+				trace = append(trace, fmt.Sprintf("query %q", q))
+			}
+			if was, seen := searchedUnder[q]; seen && was != sortOn {
+				revisitedAfterToggle = true
+			}
+			searchedUnder[q] = sortOn
+			h.reset(q, true, true, sortOn)
+			h.mu.Lock()
+			last := h.requests[len(h.requests)-1]
+			h.mu.Unlock()
+			want := h.oracle(last)
+			var got *Merger
+			why := ""
+			ok := waitUntil(60*time.Second, func() bool {
+				h.mu.Lock()
+				defer h.mu.Unlock()
+				if len(h.seen) == 0 {
+					return false
+				}
+				got = h.seen[len(h.seen)-1]
+				why = sameResults(mergerResults(got), want, false)
+				return why == ""
+			})
+			if !ok {
+				t.Fatalf("history %v (sorting %v, --tac %v, %d lines): the list published for %q is not in the order its request dictates: %s", trace, sortOn, tac, n, q, why)
+			}
+		}
+		vstat.Case("C04/order-across-query-history", fmt.Sprint(trace, n, tac), revisitedAfterToggle, fmt.Sprintf("revisited_after_toggle=%v", revisitedAfterToggle), fmt.Sprintf("tac=%v", tac))
+		if revisitedAfterToggle && vstat.WantSample("C04/order-across-query-history") {
+			vstat.Sample("C04/order-across-query-history", map[string]interface{}{"history": trace, "lines": n})
 		}
 	})
 }
